@@ -422,7 +422,7 @@ package bus
 // Message ids: allocated under the mutex, strictly advancing by 2 (distinct for fewer than 2^31 calls).
 //@ guarded_by (c *client) c.messageIDMutex: c.messageID
 //@ func (c *client) nextMessageID() (result uint32)
-//@   tags C04
+//@   tags C04 C19
 //@   requires !c.messageIDMutex.lockw
 //@   modifies c.messageIDMutex.lockw, c.messageID
 //@   ensures[C04] !c.messageIDMutex.lockw
@@ -452,9 +452,12 @@ package bus
 //@   modifies c.messageIDMutex.lockw, c.messageID
 //@   ensures[C04] result.Header.Type == 1 && result.Header.Service == serviceID && result.Header.Object == objectID && result.Header.Action == actionID
 //@   ensures[C04] !c.messageIDMutex.lockw
+// (opt noplainrecv: Call may wait only in its select over reply / errors / cancel; a plain receive
+// would wait for one peer unconditionally and hang on a closed connection)
 //@ func (c *client) Call(cancel <-chan struct{}, serviceID uint32, objectID uint32, actionID uint32, payload []byte) (result []byte, err error)
 //@   tags C04 C11
 //@   opt recv_nonnil yes
+//@   opt noplainrecv yes
 //@   requires c.endpoint != nil && !c.messageIDMutex.lockw
 //@   modifies everything
 //@   call Send#1: assert[C04,C11] c.endpoint.nhandlers == old(c.endpoint.nhandlers) + 1
